@@ -13,7 +13,7 @@ pub const START_DOCS: &[&str] = &[
     "<r><a id=\"1\">x<b/>y</a><c k=\"v\"><!--m--><d/></c><?p q?>t</r>",
     "<r id=\"r\"><a id=\"1\" k=\"x\">t</a><b id=\"2\" k=\"y\"><c k=\"z\"/></b></r>",
     "<!DOCTYPE r [<!ENTITY e \"ee\"><!ENTITY m \"<i>x</i>\"><!ATTLIST a d CDATA \"dv\">]><r>t1<a n=\"1\">&e;<![CDATA[cd]]></a><b><c><d>deep</d>&m;</c></b></r>",
-    "<r xmlns=\"urn:d\" xmlns:p=\"urn:1\"><g><p:a p:k=\"1\" k=\"2\">\u{e9}\u{1F600}</p:a><b>one</b></g>two<s xmlns:p=\"urn:2\" xmlns=\"\"><p:c/><d>three</d></s></r>",
+    "<r xmlns=\"urn:d\" xmlns:p=\"urn:1\"><g><p:a p:k=\"1\" k=\"2\">\u{e9}\u{1F600}</p:a><b>one</b></g>two<s xmlns:p=\"urn:2\" w=\"1\" xmlns=\"\"><p:c/><d>three</d></s></r>",
     "<?x y?><!DOCTYPE r><r><!--c1--><a>a-b-c</a><b>]]</b><c>1</c></r><!--end-->",
     "<r><!--a-b-c--><![CDATA[]]x>]]><t>]]x></t><u q=\"x'\" w=\"]]>\">-</u><!---x--></r>",
 ];
@@ -113,7 +113,13 @@ pub fn gen_history(g: &mut Genes, cfg: &HistCfg) -> Json {
                 }
                 2 => {
                     let pspec = json!([rp, "element"]);
-                    ops.push(json!({"op": "create_element", "d": d, "name": pick_str(g, names)}));
+                    let create = match g.weighted(&[4, 2, 2, 1]) {
+                        0 => json!({"op": "create_element", "d": d, "name": pick_str(g, names)}),
+                        1 => json!({"op": "create_text", "d": d, "s": pick_str(g, data)}),
+                        2 => json!({"op": "create_cdata", "d": d, "s": pick_str(g, data)}),
+                        _ => json!({"op": "create_comment", "d": d, "s": pick_str(g, data)}),
+                    };
+                    ops.push(create);
                     ops.push(json!({"op": "insert_before", "p": pspec.clone(), "c": newest, "r": [g.raw(), "child-of", pspec]}));
                 }
                 _ => {
